@@ -12,6 +12,7 @@ import (
 	"sort"
 	"strings"
 	"sync/atomic"
+	"time"
 
 	"github.com/RoaringBitmap/roaring/roaring64"
 	"github.com/streamingfast/dstore"
@@ -24,9 +25,16 @@ import (
 	"github.com/streamingfast/substreams/storage/index"
 
 	"verifharness/core"
+	"verifharness/progs"
+	"verifharness/sysrun"
+	"verifharness/sysx"
 )
 
 type Case struct {
+	System string   `json:"system,omitempty"` // whole-system half: which cache files of a previous run are kept (none | index | all | all-but-index)
+	Seg    uint64   `json:"seg,omitempty"`
+	Start  uint64   `json:"start,omitempty"`
+	Stop   uint64   `json:"stop,omitempty"`
 	Expr   string   `json:"expr"`
 	Assign []int    `json:"assign"` // per block (100,101,102): bitmask over keys
 	Keys   []string `json:"keys"`
@@ -37,7 +45,64 @@ var blocks = []uint64{100, 101, 102}
 
 var dirSeq int64
 
+// evalSystem: the filtered map and the filtered store of the index program give the same stream whether the index
+// files are absent and built in the same request, present, or present while everything else is missing; and equal to
+// the reference interpreter, which evaluates the filter on each block's own keys.
+func evalSystem(cs Case) (*core.Fail, bool) {
+	p := progs.Index()
+	base := sysrun.Scratch("c15base")
+	defer os.RemoveAll(base)
+	mk := func(dir string) sysrun.Config {
+		return sysrun.Config{Modules: p.Modules, Output: p.Output, Prod: true, Seg: cs.Seg, Start: int64(cs.Start), Stop: cs.Stop, Final: cs.Stop + 2, Dir: dir, Source: sysrun.LinearChain{Head: cs.Stop + 3, Final: cs.Stop + 3}, Timeout: 15 * time.Second}
+	}
+	r0 := sysrun.Run(mk(base))
+	desc := fmt.Sprintf("index program prod [%d,%d) seg=%d keep=%s", cs.Start, cs.Stop, cs.Seg, cs.System)
+	if r0.Err != nil {
+		return core.Failf("system:clean-run-failed", "%s: %v", desc, r0.Err), false
+	}
+	ref, _, err := sysx.Reference(p.Modules, p.Output, cs.Stop)
+	if err != nil {
+		return core.Failf("harness:reference", "%v", err), false
+	}
+	if d := sysx.Diff(sysx.NonEmpty(r0.Data), sysx.Restrict(ref, cs.Start, cs.Stop)); d != "" {
+		return core.Failf("system:index-built-in-request-differs-from-per-block-evaluation", "%s: %s", desc, d), true
+	}
+	keep := map[string]bool{}
+	nIndex := 0
+	for _, f := range sysrun.ListFiles(base) {
+		isIdx := strings.Contains(f, "/index/")
+		if isIdx {
+			nIndex++
+		}
+		switch cs.System {
+		case "index":
+			keep[f] = isIdx
+		case "all":
+			keep[f] = true
+		case "all-but-index":
+			keep[f] = !isIdx
+		}
+	}
+	if nIndex == 0 {
+		return core.Failf("system:no-index-file-written", "%s: the clean run left no index file", desc), false
+	}
+	dir := sysrun.Scratch("c15sys")
+	defer os.RemoveAll(dir)
+	sysrun.CopyTree(base, dir, keep)
+	r := sysrun.Run(mk(dir))
+	if r.Err != nil {
+		return core.Failf("system:request-failed", "%s: %v", desc, r.Err), true
+	}
+	if d := sysx.Diff(sysx.NonEmpty(r.Data), sysx.NonEmpty(r0.Data)); d != "" {
+		return core.Failf("system:stream-depends-on-index-files", "%s: %s", desc, d), true
+	}
+	return nil, true
+}
+
 func Eval(cs Case) (*core.Fail, bool) {
+	if cs.System != "" {
+		return evalSystem(cs)
+	}
 	expr, err := sqe.Parse(context.Background(), cs.Expr)
 	if err != nil {
 		return nil, false // rejected expressions are outside the statement
@@ -235,6 +300,16 @@ func Run(ctx *core.Ctx) int {
 				}
 			}
 		}
+		// whole-system half
+		for _, seg := range []uint64{3, 4, 6} {
+			for _, se := range [][2]uint64{{1, 2*seg + 1}, {seg + 1, 3 * seg}, {0, seg}} {
+				for _, keepMode := range []string{"none", "index", "all", "all-but-index"} {
+					if !emit(Case{System: keepMode, Seg: seg, Start: se[0], Stop: se[1]}) {
+						return
+					}
+				}
+			}
+		}
 		// keys absent from the index, and through index.File save/load
 		for i, e := range structural {
 			if i%7 != 0 && len(structural) > 400 {
@@ -254,7 +329,8 @@ func Run(ctx *core.Ctx) int {
 	ctx.Cov["expressions"] = len(structural) + len(quoted) + len(rejected)
 	ctx.Cov["expressions_accepted_by_parser"] = accepted
 	ctx.Cov["exhaustive"] = true
-	ctx.Cov["rule"] = fmt.Sprintf("every expression string with <=%d leaves over keys {a,b,c}, operators ' && ', ' || ', juxtaposition and parentheses at any nesting (%d strings) x every assignment of key subsets to the 3 blocks of a segment (8^3); every <=2-leaf expression over bare/single-/double-quoted keys and a key with a space x 16^3 assignments; 15 rejected shapes (judged only if the parser accepts them); a slice with a key absent from the index and through index.File save+load on a local zstd dstore. Oracle: RoaringBitmapsApply(expr,index).Contains(b) == KeysApply(expr, keys(b)); BlockIndex.Skip == SkipFromKeys; a block without keys is never selected; a second evaluation gives the same bitmap and leaves the index bitmaps untouched. Non-trivial: >=2 distinct keys and the filter separates the blocks.", maxLeaves, len(structural))
-	ctx.Assume = []string{"whole-system half (index file absent / being built / present give the same stream) is reported by C01/C07's runs on the index program"}
+	ctx.Cov["rule"] = fmt.Sprintf("every expression string with <=%d leaves over keys {a,b,c}, operators ' && ', ' || ', juxtaposition and parentheses at any nesting (%d strings) x every assignment of key subsets to the 3 blocks of a segment (8^3); every <=2-leaf expression over bare/single-/double-quoted keys and a key with a space x 16^3 assignments; 15 rejected shapes (judged only if the parser accepts them); a slice with a key absent from the index and through index.File save+load on a local zstd dstore. Oracle: RoaringBitmapsApply(expr,index).Contains(b) == KeysApply(expr, keys(b)); BlockIndex.Skip == SkipFromKeys; a block without keys is never selected; a second evaluation gives the same bitmap and leaves the index bitmaps untouched. Non-trivial: >=2 distinct keys and the filter separates the blocks; every whole-system case.", maxLeaves, len(structural))
+	ctx.Assume = []string{"whole-system half: the index program (index module, map filtered by 'even && three', store filtered by 'three || mod5-1') served in production mode on {empty cache: index built in the request, only the index files of a previous run, all files, all files but the index}; streams compared with each other and with the reference interpreter evaluating the filter on each block's own keys"}
+	defer sysrun.CleanupAll()
 	return ctx.Finish(core.JSONRecheck(ctx.Prop, Eval))
 }
